@@ -102,7 +102,10 @@ def build_config(engine, cfg, repo, common_objs):
     e = ENGINES[engine]
     outdir = os.path.join(BUILD, engine, cfg['id']); shutil.rmtree(outdir, ignore_errors=True); os.makedirs(outdir)
     srcdir = os.path.join(VERIF, e['dir'])
-    san = ['-fsanitize=address,undefined', '-fsanitize-trap=undefined', '-fsanitize-recover=address', '-fno-omit-frame-pointer', '-g'] if cfg['san'] else []
+    # sanitised configurations: UBSan in TRAP mode only.  ASan was tried and withdrawn: in recover mode its report path
+    # dies with 'nested bug' once a fault handler has longjmp'ed out of a report, and SimHeap's guard pages + canaries already
+    # see every out-of-block write byte-exactly (DESIGN 2.5).
+    san = ['-fsanitize=undefined', '-fsanitize-trap=undefined', '-fno-omit-frame-pointer', '-g'] if cfg['san'] else []
     objs, cmds, log = [], [], ''
     jobs = []
     for tu in e['avel_tus']:
